@@ -7,6 +7,10 @@ CHECKS = {
              text='On every path of the real MIR (const-generic limit N symbolic, <= 3 stream items with symbolic lengths incl. empty chunks and stream errors, Content-Type absent/unparsable/parsed with suffix and parameters, both encoding registration orders) the solver decides: accepted <=> Content-Type essence equals a registered encoding and no stream error and total <= N and the buffer is the in-order concatenation and the document is valid and nothing but whitespace follows; refusals are INVALID_ARGUMENT or the stream error; no panic. Optional and binary body deserializers likewise. Counterexamples are re-materialised as concrete bodies and replayed on the real build.',
              note='Trusted: mirsym; boundary models of serde_json/serde_smile (document cursor: deserialize consumes one document, end() iff only whitespace follows), erased_serde::erase transparent, mediatype parse results symbolic, futures always Ready. Outside: document well-formedness itself; > 3 stream items.',
              ref='§5 C06'),
+ 'C09': dict(engine='M', technique='non-interference decided by z3 over the real #[conjure_endpoints] expansion and helper/decoder MIR: one symbolic execution, path formulas instantiated twice with renamed unsafe inputs',
+             text='The handlers expanded by the real macro (path/query/header arguments with safe and unsafe declarations, required and optional decoders, header and cookie auth) are executed from MIR on a symbolic request; for every pair of paths the solver decides whether two requests of the same shape that agree on all declared-safe arguments can differ in a safe observation (SafeParams values, error safe params, text of a cause flagged safe). Safe arguments must appear under their declared names; BearerToken Debug is executed with a recording formatter and must be constant. Counterexample pairs are replayed on the real endpoints.',
+             note='Trusted: mirsym + http/percent-decoding/serde boundary models; std parse-error messages treated as input-dependent, constant-message error types as constant. Implicit flows (which error) are outside the property. Outside: body arguments, generator-emitted traits.',
+             ref='§5 C09'),
  'C11': dict(engine='M', technique='symbolic execution of the real ConjureRuntime::{response_body_encoding, request_body_encoding} MIR with all closures and mime_* helpers over symbolic parsed media ranges; z3 compares each path outcome with the statement written as z3 terms',
              text='For one Accept value with <= 2 symbolic media ranges (type, subtype, +suffix, parameter, q text of <= 5 symbolic bytes, unparsable entries) and both registration orders of JSON/Smile, every path of the real selection code (stable sort_by, max_by, the 12 closures, accepts/mime_specificity/mime_quality) is compared by the solver with the statement (permitted, highest quality, first listed, first registered; silent where equally specific ranges mix q=0 and q>0). mime_quality_inner: all ASCII q strings <= 6 bytes, no panic, RFC-valid qvalues exact. Request side: essence equality incl. suffix. Counterexamples replayed on the real runtime.',
              note='Trusted: mirsym; models of mediatype (parsed structures, Name equality, essence, get_param), http header access, std iterator/sort contracts. Outside: text->range parsing; > 2 ranges (thorough: 3).',
@@ -23,6 +27,10 @@ CHECKS = {
              text='is_safe_arg is executed from MIR (with its closures, RefCell memo table and generated IR accessors) on a symbolic type graph (kinds, declared safeties, member types and reference targets symbolic) after symbolic earlier calls on the same Context; the solver decides equality with the greatest fixpoint of the log-safety rules on every path. Counterexamples are written out as IR and replayed on the real generator.',
              note='Trusted: mirsym + models of HashMap index/RefCell/Option/iterator adaptors; bounds: 2 types x 2 members full alphabet, 3 types reduced alphabet (quick). Outside: larger graphs; quote! emission (covered by replay only).',
              ref='§5 C08'),
+ 'C19': dict(engine='M', technique='symbolic execution of the real #[conjure_endpoints] expansion (Endpoint::handle) with path_param/query_param/header_param/parse_*_auth and the FromPlain decoders from MIR; z3 decides code, `param` name and handler invocation for every corruption pattern',
+             text='For two macro-expanded endpoints whose Rust identifiers differ from declared and wire names, every source (path, query, header, auth header, cookie) has symbolic multiplicity 0..2 and symbolic bytes; on every path the solver decides: an error iff some argument is undecodable, handler not invoked, code INVALID_ARGUMENT (PERMISSION_DENIED for auth), `param` == declared name of the first undecodable argument; otherwise the handler is called exactly once with exactly the decoded values. Counterexamples are replayed on the real endpoints (dev+release).',
+             note='Trusted: mirsym + models of http headers, percent_decode, parsed query map (form_urlencoded outside), Error as a record. Outside: body/context arguments, longer values.',
+             ref='§5 C19'),
  'C14': dict(engine='K', technique='bounded model checking of the compiled code (Kani/CBMC) over symbolic f64 triples at full bit width',
              text='Order/equality/hash laws (reflexive incl. NaN==NaN, eq<=>cmp==Equal, antisymmetry, transitivity, NaN greatest, equal=>identical hash stream) are decided by CBMC over all f64 bit patterns for DoubleOps on f64/Option/Vec(<=2) and for DoubleKey, on the real OrderedFloat code. Failures are replayed by concrete playback before being reported.',
              note='Trusted: Kani/CBMC translation; recording Hasher stands for every Hasher. Outside: containers > 2 elements; BTreeMap DoubleOps and educe-derived generated types (not yet covered, stated in evidence).',
